@@ -7,6 +7,6 @@ git apply "$patch" || { echo "patch does not apply"; exit 2; }
 trap 'git -C /repo checkout -- . ' EXIT
 for p in "$@"; do
   echo "--- $p"
-  out=$(cd /verif && ./check $p --tier quick 2>&1; echo "exit=$?")
+  out=$(cd /verif && SCTPVC_EVIDENCE_DIR=/tmp/mut-evidence ./check $p --tier quick 2>&1; echo "exit=$?")
   echo "$out" | grep -E "VIOLATION|UNDECIDED|KNOWN|^property=|^exit="
 done
